@@ -26,6 +26,19 @@ def cut (eos : Option α) (includeEos : Bool) (toks : List α) : List α :=
   | some e =>
     toks.takeWhile (fun t => decide (t ≠ e)) ++ (if includeEos && toks.contains e then [e] else [])
 
+/-- Sequence `n` of a batch tensor: row `n` of an `(N, L)` tensor when `batch_first`, column `n`
+of an `(L, N)` tensor otherwise. -/
+def column (batchFirst : Bool) (t : List (List α)) (n : Nat) (dflt : α) : List α :=
+  if batchFirst then t.getD n [] else t.map (fun row => row.getD n dflt)
+
+/-- Entry (batch element `n`, position `k`) of a batch result in the given layout. -/
+def entry {β : Type} (batchFirst : Bool) (out : List (List β)) (n k : Nat) : Option β :=
+  if batchFirst then (out[n]?).bind (fun row => row[k]?) else (out[k]?).bind (fun row => row[n]?)
+
+/-- The transposed `(N, L)` tensor of an `(L, N)` tensor. -/
+def transpose (N : Nat) (t : List (List α)) (dflt : α) : List (List α) :=
+  (List.range N).map (fun n => t.map (fun row => row.getD n dflt))
+
 /-- `s` is a minimum-cost alignment of `r` and `h`. -/
 def IsOptimal (c : Costs) (r h : List α) (s : List (Edit α)) : Prop :=
   Aligns s r h ∧ ∀ s', Aligns s' r h → scriptCost c s ≤ scriptCost c s'
